@@ -1,5 +1,5 @@
 SPECIFICATION GSpec
-CONSTANTS Regions = {"call", "other", "fp", "filter", "map", "sort", "catch", "clone", "move"}
+CONSTANTS Regions = {"call", "other", "fp", "filter", "map", "sort", "catch", "clone", "move", "load", "mod"}
   Raises = {"none", "type", "bounds", "user", "throw", "div", "eval", "depth"}
   MaxDepth = 5
   Sim = TRUE
